@@ -274,6 +274,26 @@ def run(prop, tier):
                              "the real TransitEventBuffer is not a FIFO / disagrees with the model: %s" % (tor or tmm or ["abort rc=%d: %s" % (rct, outt[-300:])])[0][:300],
                              no_input=not (tor or rct not in (0, 3)))
 
+    spin = None
+    if prop == "C17":
+        # the registries' spinlock under the atomic shim: race detector on the protected datum + run-time orders
+        oks, sbin, slog = vlib.build_harness("h1_spin", ["h1_spin.cpp"], extra_flags=["-fno-access-control"])
+        if not oks:
+            ck.violation("harness_build_spin", slog, "harness h1_spin no longer compiles against the current tree", no_input=True)
+        else:
+            ntr, nops_s = (200, 300) if tier == "quick" else (3000, 500)
+            rcs, outs = vlib.sh([sbin, "gen", str(ck.seed), str(ntr), str(nops_s)], env=vlib.ASAN_ENV, timeout=900)
+            sor = [l for l in outs.split("\n") if l.startswith("ORACLE")]
+            seen = dict(x.split("=") for l in outs.split("\n") if l.startswith("ORDERS-SEEN") for x in l.split()[1:])
+            st_line = [l for l in outs.split("\n") if l.startswith("STATS")]
+            spin = {"stats": st_line[:1], "orders_seen": seen, "oracle_hits": len(sor)}
+            exs = ex.get("spin", {})
+            if rcs not in (0, 3) or sor:
+                ck.violation("spinlock", "# h1_spin gen %d %d %d\n# %s\n" % (ck.seed, ntr, nops_s, (sor or [outs[-400:]])[0]),
+                             "the registries' spinlock does not order critical sections (happens-before race on the protected data): %s" % (sor or ["abort rc=%d" % rcs])[0][:200])
+            elif seen and ((seen.get("xchg") not in ("-", exs.get("xchg"))) or (seen.get("unlock") not in ("-", exs.get("unl")))):
+                ps["broken"].append("extraction disagrees with the run-time orders of the spinlock: extracted %s, observed %s" % (exs, seen))
+
     mine_or = [o for o in res["oracle"] if o["prop"] == prop]
     mine_mm = [m for m in res["mismatches"] if prop in m["props"]]
     if res["aborts"]:
@@ -310,6 +330,8 @@ def run(prop, tier):
     })
     if transit is not None:
         ck.cov["transit_buffer_stream"] = transit
+    if spin is not None:
+        ck.cov["spinlock_stream"] = spin
     return ck.finish()
 
 
